@@ -204,3 +204,81 @@ func MeasureAllocsAfter(pre, f func(), warm, n int) float64 {
 	}
 	return float64(total) / float64(n)
 }
+
+// Walker is a concrete object of one version driven by single Set calls, with Vector() called directly
+// (no interface boxing), for the exhaustive allocation walk of C17.
+type Walker struct {
+	ver int
+	c20 gocvss20.CVSS20
+	c30 gocvss30.CVSS30
+	c31 gocvss31.CVSS31
+	c40 gocvss40.CVSS40
+}
+
+func NewWalker(ver int, vec string) (*Walker, error) {
+	w := &Walker{ver: ver}
+	switch ver {
+	case spec.V20:
+		p, err := gocvss20.ParseVector(vec)
+		if err != nil {
+			return nil, err
+		}
+		w.c20 = *p
+	case spec.V30:
+		p, err := gocvss30.ParseVector(vec)
+		if err != nil {
+			return nil, err
+		}
+		w.c30 = *p
+	case spec.V31:
+		p, err := gocvss31.ParseVector(vec)
+		if err != nil {
+			return nil, err
+		}
+		w.c31 = *p
+	default:
+		p, err := gocvss40.ParseVector(vec)
+		if err != nil {
+			return nil, err
+		}
+		w.c40 = *p
+	}
+	return w, nil
+}
+
+func (w *Walker) Set(abv, val string) error {
+	switch w.ver {
+	case spec.V20:
+		return w.c20.Set(abv, val)
+	case spec.V30:
+		return w.c30.Set(abv, val)
+	case spec.V31:
+		return w.c31.Set(abv, val)
+	}
+	return w.c40.Set(abv, val)
+}
+
+// Vector calls Vector() and keeps the result alive in the package-level sink.
+func (w *Walker) Vector() int {
+	switch w.ver {
+	case spec.V20:
+		sinkStr = w.c20.Vector()
+	case spec.V30:
+		sinkStr = w.c30.Vector()
+	case spec.V31:
+		sinkStr = w.c31.Vector()
+	default:
+		sinkStr = w.c40.Vector()
+	}
+	return len(sinkStr)
+}
+
+// Copy returns an independent copy (value types).
+func (w *Walker) Copy() *Walker { c := *w; return &c }
+
+// Mallocs reads the cumulative heap allocation counter.
+func Mallocs() uint64 {
+	var m runtime.MemStats
+	runtime.ReadMemStats(&m)
+	return m.Mallocs
+}
